@@ -74,7 +74,13 @@ const LITS: [&str; 8] = ["a", "b", "ab", "api", "static", "x.y", "img", "é"];
 
 fn gen_pattern(rng: &mut Rng) -> String {
     let l = |rng: &mut Rng| LITS[rng.usize(LITS.len())].to_string();
-    match rng.below(10) {
+    match rng.below(15) {
+        // patterns that do not begin with `/`: the pattern is matched as written against the whole path
+        10 => format!("*/{}", l(rng)),
+        11 => format!("*.{}", l(rng)),
+        12 => "*".into(),
+        13 => l(rng),
+        14 => format!("{}/*", l(rng)),
         0 => "/*".into(),
         1 => "/".into(),
         2 => format!("/{}", l(rng)),
@@ -89,7 +95,12 @@ fn gen_pattern(rng: &mut Rng) -> String {
 }
 
 fn gen_host_pattern(rng: &mut Rng) -> String {
-    match rng.below(6) {
+    match rng.below(10) {
+        // `*` only in the interior, in several places, and as the whole pattern
+        6 => "a.*.com".into(),
+        7 => format!("{}*z.test", rng.pick(&["x", "y"])),
+        8 => "*.example.*".into(),
+        9 => "**".into(), // (`*` alone is refused by with_host, by documented contract)
         0 => "localhost".into(),
         1 => "*.example.com".into(),
         2 => "a.example.com".into(),
